@@ -298,8 +298,7 @@ MUTANTS = [
          new="                if z is None:\n"),
     dict(id='C11-m5', prop='C11', file='mpserver/_servlet.py', desc='D11 regression in SequentialServlet: earlier members left running when a later member fails to start',
          old="                for ss in self._servlets[:i]:\n                    ss.stop()\n                self._qs = []\n                raise", new="                self._qs = []\n                raise"),
-    dict(id='C11-m6', prop='C11', file='mpserver/_server.py', desc='D26 regression: ledger not cleared on exit',
-         old="        for fut in list(self._uid_to_futures.values()):\n            fut.cancel()\n        self._uid_to_futures.clear()", new="        pass"),
+    # C11-m6 (D26 regression: ledger not cleared on exit) removed: equivalent since D36 - the gather thread now sees every result before it ends, so nothing is left to clear
     dict(id='C11-m7', prop='C11', file='mpserver/_servlet.py', desc='SwitchServlet.stop forgets to stop its enqueue thread when it has a single member',
          old="        # See `EnsembleServlet.stop` about the order.\n        self._qin.put(None)\n        self._thread_enqueue.join()", new="        # See `EnsembleServlet.stop` about the order.\n        if len(self._servlets) > 1:\n            self._qin.put(None)\n            self._thread_enqueue.join()"),
     # ---------------- C10
